@@ -291,7 +291,7 @@ def run(pid, tier):
     cov = {
         "evaluations": evals,
         "distinct_nontrivial": nontriv,
-        "rule": prop.RULE,
+        "rule": prop.RULE + "  Sub-checks of this run: " + "; ".join("%s (%s) - %s" % (sc.name, sc.kind, sc.rule) for sc in scs),
         "samples": samples[:8],
         "events_checked": sum(m["events"] for m in merged.values()),
         "subchecks": {
